@@ -237,6 +237,26 @@ theorem allComplete_step (s : St) (op : Op) (h : AllComplete s.fs) : AllComplete
       rw [hg] at hf
       cases hf
       rfl
+  | syncRaced extra k =>
+    simp only [step, syncRaced] at hf
+    rw [get_unlinkAll] at hf
+    split at hf
+    · cases hf
+    · exact h n f hn hf
+
+/-- **C12 (lost race).**  A synchronisation that finds an extra entry already removed by another
+    process does not complete (it ends in an error: the service is restarted and synchronises again),
+    writes nothing and changes no file it leaves in place; only entries it was about to remove are gone. -/
+theorem C12_raced_no_write (fs : FS) (extra : List Name) (k : Nat) :
+    (syncRaced fs extra k).2 ≠ .ok ∧
+    ∀ n, get n (syncRaced fs extra k).1 = get n fs ∨
+         (n ∈ extra ∧ get n (syncRaced fs extra k).1 = none) := by
+  refine ⟨by simp [syncRaced], fun n => ?_⟩
+  simp only [syncRaced]
+  rw [get_unlinkAll]
+  by_cases h : n ∈ extra.take (k + 1)
+  · right; exact ⟨List.mem_of_mem_take h, by simp [h]⟩
+  · left; simp [h]
 
 /-- **C12 (no partial manifest).** In every state reachable by any history of ZooKeeper changes,
     prior cache contents put there complete, cache notifications and synchronisations — each with
